@@ -551,6 +551,9 @@ pub struct WriteBehind<Db: KvDatabase> {
     shutting_down: Arc<AtomicBool>,
 
     pool: Arc<WriteBufferPool<Db>>,
+
+    #[cfg(feature = "verif_hooks")]
+    verif_stats: Arc<crate::verif::WriteBehindStats>,
 }
 
 impl<Db: KvDatabase> write_manager::WriteManager for WriteBehind<Db> {
@@ -654,6 +657,13 @@ impl<Db: KvDatabase> WriteBehind<Db> {
         let pool = Arc::new(WriteBufferPool::new());
         let shutting_down = Arc::new(AtomicBool::new(false));
 
+        #[cfg(feature = "verif_hooks")]
+        let verif_stats = {
+            let stats = Arc::new(crate::verif::WriteBehindStats::default());
+            crate::verif::register_write_behind_stats(&stats);
+            stats
+        };
+
         Self {
             commit_handle: Some({
                 let commit_receiver = commit_receiver;
@@ -697,6 +707,8 @@ impl<Db: KvDatabase> WriteBehind<Db> {
                 let after_commit_receiver = after_commit_receiver;
                 let shutting_down = shutting_down.clone();
                 let pool = pool.clone();
+                #[cfg(feature = "verif_hooks")]
+                let verif_stats = verif_stats.clone();
 
                 thread::Builder::new()
                     .name("bg_writer_after_commit".to_string())
@@ -705,6 +717,8 @@ impl<Db: KvDatabase> WriteBehind<Db> {
                             &after_commit_receiver,
                             &shutting_down,
                             &pool,
+                            #[cfg(feature = "verif_hooks")]
+                            &verif_stats,
                         );
                     })
                     .unwrap()
@@ -712,7 +726,17 @@ impl<Db: KvDatabase> WriteBehind<Db> {
 
             pool,
             shutting_down,
+
+            #[cfg(feature = "verif_hooks")]
+            verif_stats,
         }
+    }
+
+    /// Statistics of this write manager (verification hook).
+    #[cfg(feature = "verif_hooks")]
+    #[must_use]
+    pub fn verif_stats(&self) -> Arc<crate::verif::WriteBehindStats> {
+        self.verif_stats.clone()
     }
 
     /// Creates a new write buffer for accumulating write operations.
@@ -721,6 +745,9 @@ impl<Db: KvDatabase> WriteBehind<Db> {
 
     /// Submits a write buffer to be processed by the background writer.
     pub fn submit_write_batch(&self, write_buffer: WriteBatch<Db>) {
+        #[cfg(feature = "verif_hooks")]
+        self.verif_stats.submitted.fetch_add(1, Ordering::SeqCst);
+
         let write_task = SerializeTask { write_buffer };
 
         self.serialize_sender.as_ref().unwrap().send(write_task).unwrap();
@@ -730,6 +757,7 @@ impl<Db: KvDatabase> WriteBehind<Db> {
         receiver: &crossbeam_channel::Receiver<AfterCommitTask<Db>>,
         shutting_down: &Arc<AtomicBool>,
         pool: &WriteBufferPool<Db>,
+        #[cfg(feature = "verif_hooks")] verif_stats: &crate::verif::WriteBehindStats,
     ) {
         while let Ok(mut task) = receiver.recv() {
             let epoch = task.write_buffer.epoch();
@@ -739,8 +767,14 @@ impl<Db: KvDatabase> WriteBehind<Db> {
                 continue;
             }
 
+            #[cfg(feature = "verif_hooks")]
+            crate::verif::sync_point("write_behind::before_after_commit");
+
             task.write_buffer.after_commit(epoch);
             pool.return_buffer(task.write_buffer);
+
+            #[cfg(feature = "verif_hooks")]
+            verif_stats.after_commit_done.fetch_add(1, Ordering::SeqCst);
         }
     }
 
